@@ -7,6 +7,9 @@ CLAIMED = {
  "C19": ("exploration", "property-based testing against a Vec<bool> reference model; exhaustive offset x length x content grid + proptest-generated cases and builder histories",
          "Every public bit-mask primitive is compared with the same operation on a Vec<bool>, including the whole destination byte image for in-place operations; the offsets x lengths grid named in the property is enumerated completely (quick: 15 offsets x 201 lengths x 3 contents per family; thorough adds all second offsets), larger sizes and histories are sampled. Exploration, not proof: sizes above 10 000 bits and offsets above 130 are not covered.",
          "trusts rustc/std, proptest, and the ~100-line Vec<bool> model in harness/vp-checks/src/bin/c19.rs; preconditions mirrored: set_bits needs a zeroed destination range, equal lengths for binary ops, bitwise closures", "DESIGN.md §3 C19"),
+ "C03": ("exploration", "property-based testing against naive row-by-row reference kernels on logical values; model-based histories for the batch coalescer (proptest-generated types, layouts, predicates, index arrays, push/filter/finish/pop sequences)",
+         "Every selection kernel (filter, FilterBuilder, take, concat, interleave, zip, merge, merge_n, nullif, shift, slice, dictionary GC, record-batch forms) is run on generated columns of every data type in generated physical layouts and compared row by row with a reference on logical values; outputs are also judged by two validators. The BatchCoalescer is driven by generated histories against a model queue (row sequence, exact batch sizes, buffered-row accounting). Exploration: thousands of cases per kernel aimed at the selectivity/type thresholds named in DESIGN.md, not a proof.",
+         "trusts the engine's realiser/extractor (cross-checked by C02 readback) and the 60-line reference kernels in vp-engine/src/refsel.rs; mirrors documented preconditions (in-bounds valid indices, equal lengths, merge without null mask, target>=1); two open known findings (F9 nullif on run-end arrays, F10 take on unions with out-of-range null index) are excluded by construction and re-checked by the `findings` sub-check", "DESIGN.md §3 C03"),
 }
 REASON_TODO = "check not built yet in this session (technique applies; see DESIGN.md §3) - not claimed until a sound check exists"
 def main():
